@@ -363,7 +363,12 @@ func (s *rpcServer) handleServerMessage(
 			// If we aren't able to parse the batch for some
 			// reason, then we'll send a reject message.
 			log.Error("unable to parse batch: %v", err)
-			return s.sendRejectBatch(batch, err)
+
+			// There is no parsed batch we could refer to, so we
+			// reject with the batch ID of the raw message.
+			return s.sendRejectUnparsedBatch(
+				msg.Prepare.BatchId, err,
+			)
 		}
 
 		rpcLog.Infof("Received PrepareMsg for batch=%x, num_orders=%v",
@@ -2066,6 +2071,31 @@ func (s *rpcServer) sendRejectBatch(batch *order.Batch, failure error) error {
 
 	// We have handled the batch failure and informed the auctioneer. We
 	// have done our job so no need to return an error.
+	return nil
+}
+
+// sendRejectUnparsedBatch sends a reject message to the server for a batch that
+// could not be parsed. As nothing of the batch was processed yet, there are no
+// funding shims to cancel and no order events to store.
+func (s *rpcServer) sendRejectUnparsedBatch(batchID []byte,
+	failure error) error {
+
+	rpcLog.Infof("Sending batch rejection message for unparsable batch "+
+		"%x with message: %v", batchID, failure)
+
+	err := s.auctioneer.SendAuctionMessage(&auctioneerrpc.ClientAuctionMessage{
+		Msg: &auctioneerrpc.ClientAuctionMessage_Reject{
+			Reject: &auctioneerrpc.OrderMatchReject{
+				BatchId:    batchID,
+				Reason:     failure.Error(),
+				ReasonCode: auctioneerrpc.OrderMatchReject_UNKNOWN,
+			},
+		},
+	})
+	if err != nil {
+		return fmt.Errorf("error sending reject message: %v", err)
+	}
+
 	return nil
 }
 
